@@ -8,7 +8,7 @@ Driver for property C09.  One scenario per line:
       -> `ok <n> <endpoint>*n` | `err <kind>`
       endpoint = `U:<path>:<args>` | `T:<host>:<port>:<args>`, args = `k=v,k=v` with v = `s<hex>` | `T`, `-` when empty
 
-  life <addr> <ev>*      the repaired code (model of the tree with fixes/C09-*)
+  life <pid> <addr> <ev>*      the repaired code (pid = str(os.getpid()) as str-hex, for unix:tmpdir= entries) (model of the tree with fixes/C09-*)
   lifeorig <addr> <ev>*  the pinned, unrepaired code (used by hand to validate the witness theorems)
       -> `<fx>* | ph=<phase> fired=<results> pend=<serial[t]>* timers=<serial>* dc=<ids> reg=<proxy ids> prox=<id:alive:cbs>*`
          or `parse-err <kind>` when the address does not parse
@@ -47,6 +47,7 @@ def parseReaction : String → Option Reaction
   | "u" => some .unregisterSelf
   | "r" => some .registerAnother
   | "p" => some .newProxy
+  | "x" => some .raises
   | _ => none
 
 def parseBool : String → Option Bool
@@ -66,7 +67,8 @@ def parseEv (tok : String) : Option Ev :=
   | ["ap"] => some .authProgress
   | ["ao"] => some .authOk
   | ["ax"] => some .authFailed
-  | ["hr"] => some .helloReply
+  | ["hr"] => some (.helloReply true)
+  | ["hr", "noname"] => some (.helloReply false)
   | ["he"] => some .helloError
   | ["cl"] => some .close
   | ["rp", s, b] => do some (.reply (← s.toNat?) (← parseBool b))
@@ -86,6 +88,7 @@ def resName : ConnectResult → String
   | .noAddress => "noAddress"
   | .unreachable => "unreachable"
   | .helloError => "helloError"
+  | .helloNoName => "helloNoName"
   | .lostEarly => "lostEarly"
 
 def kindName : ErrKind → String
@@ -132,15 +135,15 @@ def stateStr (s : St) : String :=
       ",".intercalate (s.proxies.map fun p =>
         toString p.id ++ (if p.alive then "a" else "d") ++ "[" ++ ".".intercalate (p.cbs.map fun c => toString c.id) ++ "]"))
 
-def lifeLine (v : Variant) (addr : String) (evs : List String) : String :=
-  match hexToChars? addr, evs.mapM parseEv with
-  | some a, some es =>
-    match getDBusEndpoints { session := none, system := none, pid := "0".toList } a with
+def lifeLine (v : Variant) (pid : String) (addr : String) (evs : List String) : String :=
+  match hexToChars? addr, hexToChars? pid, evs.mapM parseEv with
+  | some a, some pid, some es =>
+    match getDBusEndpoints { session := none, system := none, pid := pid } a with
     | .error e => "parse-err " ++ errName e
     | .ok eps =>
       let s := run v (connect eps) es
       " ".intercalate (s.log.map fxStr) ++ " | " ++ stateStr s
-  | _, _ => "bad-input"
+  | _, _, _ => "bad-input"
 
 def step (line : String) : String :=
   match words line with
@@ -151,8 +154,9 @@ def step (line : String) : String :=
       | .ok eps => "ok " ++ toString eps.length ++ String.join (eps.map fun e => " " ++ epStr e)
       | .error e => "err " ++ errName e
     | _, _, _, _ => "bad-input"
-  | "life" :: a :: evs => lifeLine .repaired a evs
-  | "lifeorig" :: a :: evs => lifeLine .original a evs
+  | "life" :: pid :: a :: evs => lifeLine .repaired pid a evs
+  | "lifeorig" :: pid :: a :: evs => lifeLine .original pid a evs
+  | "life5" :: pid :: a :: evs => lifeLine .fiveFixes pid a evs
   | _ => "bad-input"
 
 def main : IO Unit := Driver.run (fun (s : Unit) line => (s, step line)) ()
